@@ -34,6 +34,7 @@ type HLog struct {
 	Name  Str    `json:"n"`
 	Sel   int    `json:"sel"`
 	Off   int    `json:"off,omitempty"`
+	Abs   uint64 `json:"abs,omitempty"` // absolute update index (overrides Off) when > 0
 	Del   bool   `json:"del,omitempty"`
 	Old   Hex    `json:"old,omitempty"`
 	New   Hex    `json:"new,omitempty"`
@@ -135,6 +136,9 @@ func (tx HTx) Resolve(min uint64, s *Store, cfg gen.Cfg) (refs []gen.Ref, logs [
 	keys := s.LogKeys()
 	for _, hl := range tx.Logs {
 		l := gen.Log{Name: hl.Name, Idx: min + uint64(hl.Off%(tx.Wide+1)), Del: hl.Del}
+		if hl.Abs > 0 {
+			l.Idx = hl.Abs
+		}
 		if hl.Sel >= 0 && len(keys) > 0 {
 			old := s.Logs[keys[hl.Sel%len(keys)]]
 			l.Name, l.Idx = old.Name, old.Idx
